@@ -38,9 +38,9 @@ META = {
 }
 
 LEVELS = ["Q0", "Q2", "Q9"]
-# language features of gen/progen.py used here (macros, domains, exceptions and overloading are rendered in the preamble of a
+# language features of gen/progen.py used here (macros, exceptions and overloading are rendered in the preamble of a
 # unit and are not split; halt is C03's subject)
-STABLE_FEATURES = ["bi", "str", "while", "for", "exit", "list", "arr", "rec", "un", "clos", "gen", "brk", "rec_fun"]
+STABLE_FEATURES = ["bi", "str", "while", "for", "exit", "list", "arr", "rec", "un", "clos", "gen", "brk", "rec_fun", "dom"]
 
 
 # ------------------------------------------------------------------------------------------------------------------
@@ -76,12 +76,19 @@ def models(chk, tier):
         sorted(splits.values(), key=lambda s: json.dumps(s, sort_keys=True))
 
 
-def wide_all_program():
-    """One hand-built program that prints every wide boundary constant (through a function and at file level)."""
+def wide_all_program(seed=None, pid="wideall"):
+    """One hand-built program that prints every wide boundary constant (through a function and at file level);
+    with a seed: 24 random machine integers of 33..64 bits instead."""
     from progen import lit, prim, var, SI, BI
     funs, top, order = [], [], []
     nl = {"e": "str", "s": "\n"}
     cs = list(progen.SI_WIDE)
+    if seed is not None:
+        r = random.Random(seed)
+        cs = []
+        for _ in range(24):
+            n = max(r.getrandbits(r.randint(33, 63)), 2**31)
+            cs.append(-n if r.random() < 0.5 else n)
     for i in range(0, len(cs), 4):
         grp = cs[i:i + 4]
         args = []
@@ -101,12 +108,12 @@ def wide_all_program():
     top.append({"d": "stmt", "x": {"e": "print", "args": [var("m1"), {"e": "str", "s": " "}, lit(BI, 2**63), {"e": "str", "s": " "},
                                                           lit(BI, -(2**63) - 1), nl]}})
     order.append(["t", len(top) - 1])
-    return {"id": "wideall", "funs": funs, "top": top, "order": order, "recs": [], "uns": [], "feat": ["fixed", "extreme"], "seed": 0}
+    return {"id": pid, "funs": funs, "top": top, "order": order, "recs": [], "uns": [], "feat": ["fixed", "extreme"], "seed": 0}
 
 
 def family(chk, n):
-    progs = [wide_all_program()]
     base = (chk.seed + 5) % 1000003
+    progs = [wide_all_program(), wide_all_program(base, "widerand")]
     for i in range(n):
         rf = random.Random(base * 31 + i)
         g = progen.ProgGen(base * 100003 + i, features=["fun"] + [f for f in STABLE_FEATURES if rf.random() < 0.6])
@@ -189,12 +196,15 @@ class Job(object):
         s = self.splits[k]
         d = os.path.join(self.root, "split%d" % k)
         os.makedirs(d, exist_ok=True)
-        libf = render.lib_closure(self.prog, [self.movable[i - 1] for i in s["lib"]])
+        moved = [self.movable[i - 1] for i in s["lib"]]
+        libf = render.lib_closure(self.prog, [i for k, i in moved if k == "f"])
+        libd = [i for k, i in moved if k == "d"]
         libref = "plib.ao" if s["form"] == "ao" else "libplib.al"
-        lib_text, client_text = render.render_split(self.prog, libf, libref=libref)
+        lib_text, client_text = render.render_split(self.prog, libf, libref=libref, lib_doms=libd)
         open(os.path.join(d, "plib.as"), "w").write(lib_text)
         open(os.path.join(d, "p.as"), "w").write(client_text)
-        res = {"split": s, "dir": d, "lib_ok": False, "run": None, "lib_funs": [self.prog["funs"][i]["name"] for i in libf]}
+        res = {"split": s, "dir": d, "lib_ok": False, "run": None,
+               "lib_funs": [self.prog["funs"][i]["name"] for i in libf] + [self.prog["doms"][i]["name"] for i in libd]}
 
         def aldor(args, timeout=units.Tree.TIMEOUT):
             rc, o, e, to = vlib.aldor(self.b, args, d, timeout=timeout)
@@ -283,21 +293,26 @@ def run(chk, tier):
             p = deck[pi % len(deck)]
             pi += 1
             chosen[(p["level"], tuple(p["chain"]), p["final"])] = p
-        if j.pid == "wideall":
+        if j.pid in ("wideall", "widerand"):
             chosen = {(p["level"], tuple(p["chain"]), p["final"]): p for p in indirect if len(p["chain"]) <= (2 if quick else 4)}
         if j.prog is not None:
             el = render.lib_eligible(j.prog)
             if len(el) >= 3:
+                # the three movable definitions of Units.tla: top-level domains when the program has some, and functions
                 own = [i for i in el if not j.prog["funs"][i]["name"].startswith(("x", "wf"))]
                 rnd.shuffle(own)
                 rest = [i for i in el if i not in own]
                 rnd.shuffle(rest)
-                j.movable = sorted((own[:2] + rest)[:3])
+                doms = list(range(len(j.prog.get("doms", []))))
+                rnd.shuffle(doms)
+                nd = min(2, len(doms))
+                j.movable = [("d", i) for i in sorted(doms[:nd])] + [("f", i) for i in sorted((own[:2] + rest)[:3 - nd])]
                 for _ in range(nsplit):
                     j.splits.append(sdeck[si % len(sdeck)])
                     si += 1
         need = set((p["level"], p["final"]) for p in chosen.values())
-        need |= set((s["qclient"], s["route"]) for s in j.splits) | set((s["qlib"], s["route"]) for s in j.splits)
+        need |= set((p["level"], k) for p in chosen.values() for k in units.RUNS)        # both direct runs, see `broken` below
+        need |= set((q, k) for s in j.splits for q in (s["qclient"], s["qlib"]) for k in units.RUNS)
         need |= set((q, "fm") for q in set(p["level"] for p in chosen.values()))       # the source's constants
         j.paths = [p for p in direct if (p["level"], p["final"]) in need] + \
             sorted(chosen.values(), key=lambda p: (p["level"], p["chain"], p["final"]))
@@ -329,7 +344,11 @@ def run(chk, tier):
                     exprs += tf.exprs()
                     if not p["chain"]:
                         consts += tf.constants()
-    values, reduced, badc = units.tlc_reduce_eval(chk, exprs, [c for c in consts if abs(c) >= 2**31 - 1 or c == -2**31])
+    # the transcribed algorithm is also evaluated by TLC on seeded random 64-bit constants (Eval(Reduce(c)) = c)
+    extra_consts = [rnd.getrandbits(64) - 2**63 for _ in range(200 if quick else 4000)]
+    values, reduced, badc = units.tlc_reduce_eval(chk, exprs, [c for c in consts if abs(c) >= 2**31 - 1 or c == -2**31] + extra_consts)
+    for c in extra_consts:
+        reduced.pop(c, None)
     for c in badc:
         chk.violation("SIntReduce.tla: Eval(Reduce(%d)) differs from the constant" % c, {"constant": c},
                       key={"model": "SIntReduce", "constant": str(c)})
@@ -341,14 +360,25 @@ def run(chk, tier):
     # ---- a (program, level) whose *direct* compilation already fails or misbehaves is outside this property (C01/C02/C03) ----
     broken = {}
     for j in jobs:
-        for p in j.paths:
-            if not p["chain"]:
-                f = j.trees[p["level"]].final((), p["final"])
+        for q in LEVELS:
+            dp = [p for p in j.paths if not p["chain"] and p["level"] == q]
+            if not dp:
+                continue
+            t = j.trees[q]
+            for p in dp:
+                f = t.final((), p["final"])
                 if not f["ok"]:
-                    broken.setdefault((j.pid, p["level"]), (p["final"],) + fault_sig(f["res"]))
-                elif p["final"] in units.RUNS and not conforms(f["run"], j.exp):
-                    c = progcheck.classify(f["run"], j.exp) if j.exp is not None else None
-                    broken.setdefault((j.pid, p["level"]), (p["final"],) + tuple(c or fault_sig(f["run"])))
+                    broken.setdefault((j.pid, q), (p["final"],) + fault_sig(f["res"]))
+                elif p["final"] == "exe" and f["run"]["phase"] in ("compile", "link"):
+                    broken.setdefault((j.pid, q), ("exe",) + fault_sig(f["run"]))
+            # a wrong behaviour that the interpreter and the executable share comes from the front or middle end (C01/C02);
+            # one that only one of them shows is route-specific and stays in the trace (the interpreter loads the unit's
+            # flat FOAM, i.e. goes through the saved form)
+            rr = [t.final((), k) for k in units.RUNS if any(p["final"] == k for p in dp)]
+            if (j.pid, q) not in broken and len(rr) == 2 and all(f["ok"] for f in rr) and \
+                    not any(conforms(f["run"], j.exp) for f in rr) and run_digest(rr[0]["run"]) == run_digest(rr[1]["run"]):
+                c = progcheck.classify(rr[0]["run"], j.exp) if j.exp is not None else None
+                broken[(j.pid, q)] = ("run+exe",) + tuple(c or fault_sig(rr[0]["run"]))
     for j in jobs:
         j.paths = [p for p in j.paths if (j.pid, p["level"]) not in broken]
         keep = [k for k, s in enumerate(j.splits) if (j.pid, s["qclient"]) not in broken and (j.pid, s["qlib"]) not in broken]
